@@ -28,6 +28,8 @@ type yamlDemoInner struct {
 }
 
 type c18Case struct {
+	Huge     bool          `json:"huge_file,omitempty"` // the file already holds 60-250 KiB of other entries and the document is ~15 KiB
+	HugeN    int           `json:"huge_entries,omitempty"`
 	Kind     string        `json:"kind"` // text | invalid | value | struct | newline_with_matcher
 	Doc      BS            `json:"doc,omitempty"`
 	Form     string        `json:"form,omitempty"`
@@ -71,6 +73,8 @@ func genC18(t *rapid.T) c18Case {
 	if rapid.Bool().Draw(t, "testa") {
 		c.Test = "TestA" // the name used by header-looking lines of the document grammar
 	}
+	c.Huge = rapid.IntRange(0, 24).Draw(t, "huge") == 0
+	c.HugeN = rapid.IntRange(20, 80).Draw(t, "hugen")
 	switch k := rapid.IntRange(0, 9).Draw(t, "kind"); {
 	case k < 5:
 		doc := genYAMLDocText(t)
@@ -80,6 +84,16 @@ func genC18(t *rapid.T) c18Case {
 		}
 		if hasTrailingCR(doc) {
 			doc, c.Kind = "a: 1\n", "text"
+		}
+		if c.Huge && c.Kind == "text" {
+			var sb strings.Builder
+			for l := 0; l < rapid.IntRange(200, 400).Draw(t, "hugelines"); l++ {
+				fmt.Fprintf(&sb, "key_%d: %s\n", l, strings.Repeat("w", 10+(l*17)%60))
+				if l%50 == 49 {
+					sb.WriteString("---\n")
+				}
+			}
+			doc = sb.String()
 		}
 		c.Doc = BS(doc)
 		c.Form = rapid.SampledFrom([]string{"string", "bytes"}).Draw(t, "form")
@@ -137,6 +151,20 @@ func checkC18(c c18Case) error {
 	k := c.Before + 1
 	id := entryID(c.Test, k)
 
+	nHuge := 0
+	if c.Huge {
+		var es []Entry
+		for i := 1; i <= max(c.HugeN, 20); i++ {
+			var sb strings.Builder
+			for l := 0; l < 60; l++ {
+				fmt.Fprintf(&sb, "k%d_%d: %s\n", i, l, strings.Repeat("v", 20+(i*7+l*13)%50))
+			}
+			es = append(es, Entry{ID: BS(entryID("TestHugeNeighbour", i)), Body: BS(sb.String())})
+		}
+		nHuge = len(es)
+		os.MkdirAll(filepath.Dir(file), 0o755)
+		os.WriteFile(file, []byte(refRender(es)), 0o644)
+	}
 	newProcess(Mode{})
 	cfg := spec.build(root)
 	ft := newFakeT(c.Test)
@@ -202,8 +230,8 @@ func checkC18(c c18Case) error {
 		return fmt.Errorf("file not well formed after recording %q: %v; content %q", clip(string(c.Doc)), perr, clip(readFile(file)))
 	}
 	idx := findEntry(es, id)
-	if idx < 0 || len(es) != c.Before+2 {
-		return fmt.Errorf("expected %d entries incl. %q, file has %s", c.Before+2, id, describeEntries(es))
+	if idx < 0 || len(es) != c.Before+2+nHuge {
+		return fmt.Errorf("expected %d entries incl. %q, file has %d", c.Before+2+nHuge, id, len(es))
 	}
 	body := string(es[idx].Body)
 	switch c.Kind {
@@ -223,6 +251,20 @@ func checkC18(c c18Case) error {
 		if other != body {
 			return fmt.Errorf("the same Go value was marshalled to different text in two processes:\n%q\n%q", clip(body), clip(other))
 		}
+	}
+	if c.Huge {
+		// more entries of another test behind the document, so that the document is in the middle of a large file
+		var sb strings.Builder
+		for i := 1; i <= 40; i++ {
+			sb.WriteString("\n[" + entryID("TestHugeTail", i) + "]\n")
+			for l := 0; l < 50; l++ {
+				fmt.Fprintf(&sb, "t%d_%d: %s\n", i, l, strings.Repeat("z", 15+(i*5+l*11)%50))
+			}
+			sb.WriteString("---\n")
+		}
+		f, _ := os.OpenFile(file, os.O_APPEND|os.O_WRONLY, 0o644)
+		f.WriteString(sb.String())
+		f.Close()
 	}
 	// read-only replay: passes and writes nothing
 	newProcess(Mode{CI: true})
